@@ -991,6 +991,23 @@ class RewriteAtQuery(NodeTransformer):
         self.search = search
         self.replacement_node = replacement_node
         self.replaced = False
+        self._root = None
+        self._target = None
+
+    def visit(self, node):
+        """
+        Visit a node. On the first (root) call, resolves the node to replace.
+
+        :param node: The AST node
+        :type node: ```AST```
+
+        :returns: Potentially changed AST node
+        :rtype: ```AST```
+        """
+        if self._root is None:
+            self._root = node
+            self._target = find_in_ast(self.search, node)
+        return NodeTransformer.visit(self, node)
 
     def generic_visit(self, node):
         """
@@ -1002,12 +1019,12 @@ class RewriteAtQuery(NodeTransformer):
         :returns: Potentially changed AST node
         :rtype: ```AST```
         """
-        if (
-            not self.replaced
-            and hasattr(node, "_location")
-            and node._location == self.search
-        ):
+        if not self.replaced and self._target is not None and node is self._target:
             self.replaced = True
+            if isinstance(node, (AnnAssign, Assign)) and isinstance(
+                self.replacement_node, ast.arg
+            ):
+                self.replacement_node = emit_ann_assign(self.replacement_node)
             return self.replacement_node
         else:
             return NodeTransformer.generic_visit(self, node)
@@ -1022,63 +1039,47 @@ class RewriteAtQuery(NodeTransformer):
         :returns: Potentially changed FunctionDef
         :rtype: ```FunctionDef```
         """
+        if self.replaced or self._target is None or node is self._target:
+            return node
 
-        if (
-            not self.replaced
-            and hasattr(node, "_location")
-            and node._location == self.search[:-1]
-        ):
-            if isinstance(self.replacement_node, (AnnAssign, Assign)):
-                # Set default
-                if isinstance(self.replacement_node, AnnAssign):
-                    idx = next(
-                        (
-                            _arg._idx
-                            for _arg in node.args.args
-                            if _arg.arg == self.replacement_node.target.id
-                            and hasattr(_arg, "_idx")
-                        ),
-                        None,
-                    )
-                else:
-                    idx = next(
-                        filter(
-                            None,
-                            (
-                                _arg._idx if _arg.arg == target.id else None
-                                for target in self.replacement_node.targets
-                                for _arg in node.args.args
-                                if hasattr(_arg, "_idx")
-                            ),
-                        ),
-                        None,
-                    )
-                    self.replacement_node = set_arg(
-                        arg=self.replacement_node.targets[0].id,
-                        annotation=self.replacement_node.value,
-                    )
+        arg_attr, idx = next(
+            (
+                (arg_attr, idx)
+                for arg_attr in ("args", "kwonlyargs")
+                for idx, _arg in enumerate(getattr(node.args, arg_attr))
+                if _arg is self._target
+            ),
+            (None, None),
+        )
+        if arg_attr is None:
+            return node
 
-                if idx is not None and len(node.args.defaults) > idx:
-                    new_default = get_value(self.replacement_node)
-                    if new_default is not None:
-                        node.args.defaults[idx] = new_default
+        if isinstance(self.replacement_node, (AnnAssign, Assign)):
+            # Set default
+            new_default = None
+            if isinstance(self.replacement_node, AnnAssign):
+                new_default = self.replacement_node.value
+            else:
+                self.replacement_node = set_arg(
+                    arg=self.replacement_node.targets[0].id,
+                    annotation=self.replacement_node.value,
+                )
 
-                self.replacement_node = emit_arg(self.replacement_node)
-            assert isinstance(
-                self.replacement_node, ast.arg
-            ), "Expected ast.arg got {!r}".format(type(self.replacement_node).__name__)
+            if new_default is not None:
+                if arg_attr == "args":
+                    default_idx = idx - (len(node.args.args) - len(node.args.defaults))
+                    if default_idx >= 0:
+                        node.args.defaults[default_idx] = new_default
+                elif len(node.args.kw_defaults) > idx:
+                    node.args.kw_defaults[idx] = new_default
 
-            for arg_attr in "args", "kwonlyargs":
-                arg_l = getattr(node.args, arg_attr)
-                for idx in range(len(arg_l)):
-                    if (
-                        hasattr(arg_l[idx], "_location")
-                        and arg_l[idx]._location == self.search
-                    ):
-                        arg_l[idx] = emit_arg(self.replacement_node)
-                        self.replaced = True
-                        break
+            self.replacement_node = emit_arg(self.replacement_node)
+        assert isinstance(
+            self.replacement_node, ast.arg
+        ), "Expected ast.arg got {!r}".format(type(self.replacement_node).__name__)
 
+        getattr(node.args, arg_attr)[idx] = emit_arg(self.replacement_node)
+        self.replaced = True
         return node
 
 
